@@ -217,7 +217,8 @@ class World:
     def __init__(self, cfg):
         self.cfg = dict(ping_interval=2, ping_timeout=1, grace=0, async_handlers=False,
                         monitor=False, transports=None, allow_upgrades=True, ws_available=True,
-                        max_buf=1000000, cookie=None, cors=None, compression=False,
+                        max_buf=1000000, cookie=None, cors=None, cors_credentials=True, compression=False,
+                        compression_threshold=1024,
                         disc_raises=False)
         self.cfg.update(cfg or {})
         self.out = []             # normalised outputs since the last env action
@@ -259,7 +260,9 @@ class World:
                   async_handlers=c['async_handlers'], monitor_clients=c['monitor'],
                   allow_upgrades=c['allow_upgrades'], max_http_buffer_size=c['max_buf'],
                   cookie=c['cookie'], cors_allowed_origins=c['cors'],
-                  http_compression=c['compression'], logger=_quiet)
+                  cors_credentials=c['cors_credentials'],
+                  http_compression=c['compression'],
+                  compression_threshold=c['compression_threshold'], logger=_quiet)
         if c['transports']:
             kw['transports'] = c['transports']
         return kw
